@@ -45,15 +45,17 @@ CONSTANTS
   Certs,        \* certificates that are submitted
   RootOf,       \* [Certs -> Roots]
   Subs,         \* submission identities
-  MaxPublish,   \* budget of publications
-  MaxFaults,    \* budget of transient read faults
+  MaxEmit,      \* bound on the number of emissions (generations); a run must not publish more than this many
+                \* contents that parse (MaxPublish + 1 <= MaxEmit, or the state constraint EmitBound)
+  MaxPublish,   \* budget of publications; -1 = unbounded
+  MaxFaults,    \* budget of transient read faults; -1 = unbounded
   MaxTicks,     \* budget of Advance steps; -1 = unbounded
   RootEvery,    \* root refresh interval in log-list refresh intervals; 0 = the root refreshers are left out of the model
   MayCancel,    \* BOOLEAN: the proxy's context may end
   Resubmit      \* BOOLEAN: a finished submission identity may be used again
 
 None == "none"
-Gens == 1..(MaxPublish + 1)
+Gens == 1..MaxEmit
 
 VARIABLES
   \* environment
@@ -128,13 +130,13 @@ Init ==
 
 (* ------------------------------ environment ------------------------------ *)
 Publish(v) ==
-  /\ budget > 0 /\ v # source
-  /\ source' = v /\ budget' = budget - 1
+  /\ budget # 0 /\ v # source
+  /\ source' = v /\ budget' = IF budget > 0 THEN budget - 1 ELSE budget
   /\ UNCHANGED <<failNext, faults, ticks, ctxDone, mgrVars, tickVars, loopVars, rootVars, subVars>>
 
 FailNext ==
-  /\ faults > 0 /\ ~failNext
-  /\ failNext' = TRUE /\ faults' = faults - 1
+  /\ faults # 0 /\ ~failNext
+  /\ failNext' = TRUE /\ faults' = IF faults > 0 THEN faults - 1 ELSE faults
   /\ UNCHANGED <<source, budget, ticks, ctxDone, mgrVars, tickVars, loopVars, rootVars, subVars>>
 
 \* one log-list refresh interval passes: every running ticker whose period has elapsed delivers a tick
@@ -359,6 +361,9 @@ Fairness ==
 
 Spec == Init /\ [][Next]_vars /\ Fairness
 
+\* state constraint for runs with an unbounded publication budget: do not go beyond MaxEmit emissions
+EmitBound == Len(emitted) < MaxEmit \/ (Len(emitted) = MaxEmit /\ tpc # "manager")
+
 (* ------------------------------- quiescence ------------------------------- *)
 \* Steps the code takes on its own, without waiting for anything outside the process: everything except the passing of
 \* time, the environment, and the four calls that leave the process (the HTTP read of the list, the DistributorBuilder,
@@ -387,7 +392,7 @@ TypeOK ==
   /\ lpc \in {"select", "build", "building", "swap", "initsend", "initclose", "exited"}
   /\ \A g \in Gens : rpc[g] \in {"none", "start", "refreshing", "idle", "stopped"} /\ rCount[g] \in 0..RootEvery
   /\ \A s \in Subs : spc[s] \in {"idle", "called", "read", "running", "failing", "done"}
-  /\ Len(emitted) <= MaxPublish + 1
+  /\ Len(emitted) <= MaxEmit
 
 \* TwoLatest: (latest, previous) are the last two emissions, at every instant
 TwoLatest == latest = Len(emitted) /\ previous = (IF latest = 0 THEN 0 ELSE latest - 1)
